@@ -302,6 +302,7 @@ class timemodel(_coreiterative):
             self.step(Qnn, dtloc if dtlocal else mindtloc)
             self.Qn = Qnn
             self._nit += 1
+            self.Qn.it = self._itstart + self._nit
             self._time = self.Qn.time
             self._parse_monitors(monitors)
             if flush:
